@@ -30,6 +30,8 @@ def run_property(prop, tier, repo=None, root=None):
         ctx.note_undecided(u)
     try:
         PROPS[prop][0](ctx)
+        if ctx.errors:
+            return ctx, 'ANALYSIS-ERROR %s: %s' % (prop, ' | '.join(ctx.errors))
     except AnalysisError as e:
         return ctx, 'ANALYSIS-ERROR %s: %s' % (prop, e)
     except RecursionError:
